@@ -12,7 +12,7 @@ for s in $seeds; do
 import json
 m=json.load(open('/verif/seeded/$s/meta.json'))
 ps=[o.split(':')[0] for o in m.get('check_outcome',[])] or [m['property']]
-extra={'C05-2':['C06'],'C14-2':['C14','C06']}
+extra={'C05-2':['C06'],'C14-2':['C14','C06'],'C05-6':['C15'],'C16-5':['C04']}
 for e in extra.get('$s',[]):
     if e not in ps: ps.append(e)
 print(' '.join(ps))")
